@@ -737,7 +737,7 @@ def plant_parms(doc, rng, kind):
 # what makes the typed copy of the carrier form fail AFTER the form itself was loaded (something nested in its resources /
 # entries that does not load as the type its position demands)
 FAIL_KINDS = ["unknown-subtype", "missing-required", "missing-bbox", "wrong-type-int", "wrong-type-dict", "wrong-entry-type",
-              "dangling", "metadata-not-stream", "pattern-bad"]
+              "dangling", "metadata-not-stream", "pattern-bad", "writer-refuses"]
 # how the later page reaches what the failed page reached
 SHARE_KINDS = ["smask", "do", "entry", "sibling", "bad-direct", "nested-inner", "smask-indirect"]
 
@@ -765,6 +765,9 @@ def plant_failing_share(doc, rng, fail, share):
         bad = doc.add({"Type": Name("XObject"), "Subtype": Name("Image"), "Width": 2, "Height": 2})
     elif fail == "wrong-entry-type":
         bad = doc.add(Stream(dict(img, Width=Name("Wide")), rnd_bytes(rng, 12)))
+    elif fail == "writer-refuses":
+        # loads and clones, but the typed writer refuses it (ColorSpace::to_primitive for DeviceGray): fails in `fulfill`
+        bad = doc.add(Stream(_image_dict(2, 2, Name("DeviceGray")), rnd_bytes(rng, 4)))
     elif fail == "dangling":
         bad = Ref(doc.n + 70 + rng.randrange(20))
     elif fail == "metadata-not-stream":
@@ -839,12 +842,13 @@ def plant_unreadable(doc, rng, kind):
     return pi, x.num
 
 
-def write_encrypted(doc, rng, damaged, nbytes):
+def write_encrypted(doc, rng, damaged, nbytes, method="AESV2"):
     """the document under the standard security handler (AESV2, empty user password), classic table; the encrypted data of
     stream `damaged` cut to `nbytes` bytes (not a whole number of cipher blocks after the IV: it cannot be decrypted)"""
     from oracle import security as S
-    doc.features.add("file:encrypted")
-    h = S.Handler(4, "AESV2", 16, b"", b"owner", -4, b"0123456789abcdef")
+    doc.features.add("file:encrypted-" + method)
+    h = S.Handler(4, "AESV2", 16, b"", b"owner", -4, b"0123456789abcdef") if method == "AESV2" else \
+        S.Handler(3, "V2", 16, b"", b"owner", -4, b"0123456789abcdef")
     ivs = iter(lambda: rnd_bytes(rng, 16), None)
     enc = S.protect(dict(doc.objs), h, ivs)
     if nbytes is not None:
